@@ -16,6 +16,7 @@ TRUSTED = ['native-tls / rustls certificate and host name verification', 'tokio_
 UNDECIDED = ['TLS library behaviour', 'server behaviour at run time']
 ASSUMPTIONS = []
 CONFIGS = ['default', 'rustls']
+SHARED = [('C04', ('L7.',), 'W6.transport')]      # what is written to a ConnType::Tls goes to the TLS stream, not to another variant's socket, method by method
 
 NT = 'ldap3::conn::LdapConnAsync::new_tcp'
 
